@@ -418,7 +418,7 @@ def fill : List PSeg → Scalar → Except Err Node
   | [], leaf => .ok (.scalar none leaf)
   | .key s :: rest, leaf => (fill rest leaf).map (fun c => .map none [(.str s, c)])
   | .index i :: rest, leaf =>
-    if i < 0 then .error (.crash .indexError)
+    if i < 0 then .error (.ypath .generic)   -- "Cannot add an element before the start of a list" (fix 205ff02)
     else (fill rest leaf).map (fun c => .seq none (List.replicate i.toNat (buildNext rest leaf) ++ [c]))
 
 /-- The address, inside a freshly created element, of the leaf that `fill` builds. -/
@@ -455,7 +455,7 @@ def lookSeg (n : Node) (seg : PSeg) : Look :=
       if (items.length : Int) > i then
         if i ≥ 0 then .found (.idx i.toNat)
         else if -i ≤ items.length then .found (.idx (items.length - (-i).toNat))
-        else .crash (.crash .indexError)
+        else .crash (.ypath .generic)   -- below the start of the list: the creation block refuses (fix 205ff02)
       else .missing
     | none => .crash .outOfModel          -- pass-through search of an array of hashes
   | .set _ _ => .crash .outOfModel
@@ -468,7 +468,7 @@ def createHere (n : Node) (seg : PSeg) (rest : List PSeg) (leaf : Scalar) : Exce
     match intOfSeg seg with
     | none => .error (.ypath .typeMismatch)
     | some i =>
-      if i < 0 then .error (.crash .indexError)
+      if i < 0 then .error (.ypath .generic)   -- "Cannot add an element before the start of a list" (fix 205ff02)
       else match fill rest leaf with
         | .error e => .error e
         | .ok c => .ok (.seq a (items ++ List.replicate (i.toNat - items.length) (buildNext rest leaf) ++ [c]))
